@@ -33,7 +33,7 @@ TEXT = {
     "C01": {"design_ref": _E + "C01",
             "technique": "explicit-state model checking of the real engine: BFS over histories x bounded in-build schedule deviations, reference evaluator oracle",
             "text": "Every history up to depth 4 (quick) / 5 (thorough) of {set leaf, tamper output cell, build any key, restart on the same database, redefine a rule} "
-                    "over 39 curated rule worlds, the enumerated static family and the 156-world request-mode family (every order and normal/single-use/must-follow assignment of three requests), with and without SQLite database, in database mode with one build per history cancelled at every step or hit by a database write error at every write, default schedule plus every single "
+                    "over 46 curated rule worlds (four of them also under four hostile key spellings: NUL inside, prefix-up-to-NUL pairs, 0xFF), the enumerated static family and the 156-world request-mode family (every order and normal/single-use/must-follow assignment of three requests), with and without SQLite database, in database mode with one build per history cancelled at every step or hit by a database write error at every write, default schedule plus every single "
                     "deviation (synchronous vs deferred completion, delivery order), is executed on a fresh real engine; every successful build's value "
                     "and every input handed to a task is compared with a memoised recursive reference evaluation in the current external state. A structured A-B-A pass goes beyond the depth bound: build K, set any subset of leaves, rebuild K interrupted at every step / write, optional restart, put leaves back, rebuild K.",
             "note": "Trusted: the reference evaluator (80 lines) and the world grammar; worlds outside the grammar, deeper histories and >1 schedule deviation per build are not covered."},
@@ -77,7 +77,7 @@ TEXT.update({
                     "schema creation); the parent then opens the file with a fresh BuildDB (stored epoch >= every result epoch, every dependency resolves, every stored "
                     "record is one the engine handed over with the dependency list of the same execution, PRAGMA integrity_check ok) and runs 6 (12) continuation "
                     "histories whose every build must succeed with the clean-build value, including worlds whose output cells the killed build had already rewritten. "
-                    "Part enginex: graceful interruption then process death - over the 41 curated rule worlds in database mode: build K, set any subset of leaves, rebuild K cancelled at EVERY "
+                    "Part enginex: graceful interruption then process death - over the 46 curated rule worlds in database mode: build K, set any subset of leaves, rebuild K cancelled at EVERY "
                     "step or failed at every database write, new process on that database, any one / all of the leaves put back, rebuild K: clean-build value and consistent persisted records. "
                     "Part worldx3: the `llbuild ninja` tool SIGKILLed while a command has half-written its outputs; the continued build must give clean-build contents.",
             "note": "Process death only (writes already issued persist); power loss / torn sectors are not claimed by the property."},
@@ -151,7 +151,8 @@ TEXT.update({
             "technique": "exhaustive enumeration of keys/values of every kind over a byte alphabet; round-trip, canonicity and global injectivity oracles",
             "text": "All 9 key kinds x names up to length 3 (4) over {'a','/',NUL,0xFF} x filter lists, all 18 value kinds x 0..3 outputs x FileInfo fields in "
                     "{0,1,2^64-1} x signatures x string lists: decode(encode(v)) reproduces every accessor, re-encoding is identical, and a global map from "
-                    "bytes to abstract value never sees two values (injectivity across kinds).",
+                    "bytes to abstract value never sees two values (injectivity across kinds); every value is also decoded INTO a variable that already holds a value of each kind "
+                    "(move assignment, the way the build system refills its slots) and must still encode to the same bytes.",
             "note": "NUL inside StringList elements is outside the type's domain."},
     "C16": {"design_ref": "DESIGN.md §4.3, §5 C16",
             "technique": "preemption-bounded stateless model checking of the real LaneBasedExecutionQueue / SerialQueue under an interposing cooperative scheduler",
